@@ -67,6 +67,8 @@ Proof.
   - left. destruct (find_cs sid (cc_streams c)) as [s|]; [|constructor].
     destruct (negb (cs_app_closed s)); [|constructor].
     destruct (if 0 <? cs_buf s then _ else _). cbn [snd]. apply plain_wu.
+  - left. destruct (find_cs sid (cc_streams c)) as [s|]; [|constructor].
+    destruct (cs_forgotten s || cs_peer_reset s || cs_peer_ended s); cbn [snd]; repeat constructor.
 Qed.
 
 Lemma plain_not_csettings : forall e, plain e -> not_csettings e.
@@ -479,4 +481,25 @@ Proof.
     + intros H Hs. rewrite H, Hs. cbn. apply B. exact H.
     + intros H Hs _. rewrite H, Hs. reflexivity.
   - repeat split; auto. intros; discriminate.
+Qed.
+
+(* ---- stream slots ----
+   A slot the client has freed (forgetStreamID) is free on the peer's books as well: every
+   forgotten stream is closed there (END_STREAM both ways, or RST_STREAM), so the peer never
+   counts more open streams than the client holds - whatever happened on the stream (upload
+   given up after an early final response, cancel, reset by either side). *)
+Theorem peer_open_le_client_active : forall prio_len prio_last stream_in conn_flow,
+  cfg_ok prio_len prio_last stream_in conn_flow ->
+  forall evs, exists m',
+  mon_steps (mon_init stream_in conn_flow) (trace_of prio_len prio_last stream_in conn_flow evs) = Some m' /\
+  let c := fst (conn_run (conn0 prio_len prio_last stream_in conn_flow) evs) in
+  open_count (m_streams m') <= active_count (cc_streams c) /\
+  (forall sid s, find_cs sid (cc_streams c) = Some s -> cs_forgotten s = true ->
+     exists ms, find_ms sid (m_streams m') = Some ms /\ ms_closed ms = true).
+Proof.
+  intros pl pla si cf Hc evs. destruct (accept_all pl pla si cf Hc evs) as (mf & Hs & HR & _).
+  exists mf. split; [exact Hs|]. cbv zeta. pose proof HR as HR0. dR HR0. split.
+  - eapply F2_count; eauto.
+  - intros sid s Hf Hfg. destruct (F2_find_some _ _ _ _ _ Rst Hf) as (ms & Hfm & HS & _).
+    exists ms. split; [exact Hfm|]. destruct HS as (_ & _ & _ & _ & _ & H6 & _). apply H6. exact Hfg.
 Qed.
